@@ -8,4 +8,4 @@ Definition judge_all (cs : list case) : list (N * N * N) :=
   flat_map (fun c => compare_case c ++
      flat_map (fun w => match P_hub w c with
                         | Some (i, clause) => [(c.(k_id), 10 + w, i * 1000 + clause)]
-                        | None => [] end) [1; 3; 4; 5; 6; 7; 8; 9; 19]) cs.
+                        | None => [] end) [1; 3; 4; 5; 6; 7; 8; 9; 14; 19]) cs.
